@@ -14,6 +14,8 @@ import (
 
 	"verif/engine/cli"
 	"verif/engine/hist"
+	"verif/engine/sched"
+	"verif/vrt"
 )
 
 type ident [32]byte
@@ -30,17 +32,19 @@ func bytesToID(b []byte) (ident, int, error) {
 func strToBytes(s string) ([]byte, error)      { return []byte(s), nil }
 func bytesToStr(b []byte) (string, int, error) { return string(b), len(b), nil }
 
-// keys: four short keys, two of which share the first byte of their SHA-256 path, and one a proper prefix of another
+// keys: four short keys, two of which share the first 20 bits of their SHA-256 path, and one a proper prefix of another
 var keys = func() []string {
-	first := map[byte]string{}
+	// two keys whose SHA-256 paths share the first 20 bits (a birthday search over a few thousand candidates)
+	first := map[uint32]string{}
 	var pair []string
 	for i := 0; len(pair) == 0; i++ {
 		k := fmt.Sprintf("k%d", i)
 		h := sha256.Sum256([]byte(k))
-		if o, ok := first[h[0]]; ok {
+		p := uint32(h[0])<<12 | uint32(h[1])<<4 | uint32(h[2])>>4
+		if o, ok := first[p]; ok {
 			pair = []string{o, k}
 		}
-		first[h[0]] = k
+		first[p] = k
 	}
 	return append(pair, "x", "xy") // "x" is a proper prefix of "xy" (variable-length keys)
 }()
@@ -312,6 +316,56 @@ func (in *inst) probe(cls string) string {
 	return ""
 }
 
+// concurrent callers of one authenticated map (it carries a mutex and is used from several goroutines): readers
+// running side by side with each other and with a writer must see committed contents and must not race
+func concurrentScenarios() []*sched.Scenario {
+	var out []*sched.Scenario
+	for _, set := range []bool{false, true} {
+		set := set
+		name := "map"
+		if set {
+			name = "set"
+		}
+		out = append(out, &sched.Scenario{Name: "concurrent/" + name + "/readers-vs-writer", Run: func() {
+			a := open(mapdb.NewMapDB(), set)
+			val := func(k string) string {
+				if set {
+					return ""
+				}
+				return "v" + k
+			}
+			for _, k := range keys[:3] {
+				if err := a.Set(k, val(k)); err != nil {
+					panic(err)
+				}
+			}
+			if err := a.Commit(); err != nil {
+				panic(err)
+			}
+			read := func(k string) func() {
+				return func() {
+					h, err := a.Has(k)
+					v, ex, err2 := a.Get(k)
+					if err != nil || err2 != nil || !h || !ex || v != val(k) {
+						vrt.Fail("concurrent-read", "key %s is present throughout, a reader got Has=(%v,%v) Get=(%q,%v,%v)", k, h, err, v, ex, err2)
+					}
+					_ = a.Size()
+				}
+			}
+			vrt.Par(read(keys[0]), read(keys[1]), func() {
+				if err := a.Set(keys[3], val(keys[3])); err != nil {
+					panic(err)
+				}
+				_, _ = a.Delete(keys[2])
+			})
+			if a.Size() != 3 {
+				vrt.Fail("concurrent-size", "3 keys, one added and one deleted concurrently with readers: Size is %d", a.Size())
+			}
+		}})
+	}
+	return out
+}
+
 func main() {
 	var parts []*cli.Part
 	for _, set := range []bool{false, true} {
@@ -344,8 +398,11 @@ func main() {
 		}
 		parts = append(parts, p)
 	}
+	scs := concurrentScenarios()
 	cli.Main(&cli.Property{
-		ID: "C09", Level: "model_checking", Parts: parts, QuickSecs: 60, ThoroughSecs: 900,
+		Scenarios: scs, QuickBound: 2, ThoroughBound: 3, QuickUnbounded: false, ThoroughUnbounded: true, Cache: true,
+		RaceHB: &cli.RaceHB{QuickBound: 1, ThoroughBound: 2},
+		ID:     "C09", Level: "model_checking", Parts: parts, QuickSecs: 60, ThoroughSecs: 900,
 		Rule:        "every history up to depth 5/6 (map/set; thorough +1) of Set/Add (4 keys, two sharing the first byte of their SHA-256 path; values empty/a/b), Delete, Commit and Reopen (only in a clean state) on the real authenticated map/set over mapdb; after every step Get/Has of every key, Size, Stream and Root are compared with a plain map model, the root is compared with the root of a fresh instance built from the same contents in canonical order (content-only root), distinct contents must have distinct roots, and after Reopen root/size/contents and WasRestoredFromStorage must be unchanged/correct; distinct = distinct histories",
 		Assumptions: []string{"Reopen is only exercised directly after a Commit or on a pristine store (the statement promises faithful reopen after a Commit, not crash consistency of uncommitted changes)"},
 		NotReached:  []string{"more than 4 keys", "store faults underneath the trie"},
